@@ -26,6 +26,10 @@ NAMED = [  # (cell, attribute text, field type)
     ('type_rename_docs', '/// d\n    #[ts(type = "0 | 1", rename = "r")]', 'Opaque'),
     ('inline_rename', '#[ts(inline, rename = "r")]', 'Inner'),
     ('as_optional', '#[ts(as = "Option<String>", optional)]', 'Opaque'),
+    ('docs_braces', '/// serialized like {"id": 1}, with {0}, {} and {name}', 'i32'),
+    ('docs_braces_type', '/// serialized like {"id": 1}, with {0}, {} and {name}\n    #[ts(type = "string")]', 'Opaque'),
+    ('rename_braces', '#[ts(rename = "{key}")]', 'i32'),
+    ('rename_braces_type', '#[ts(rename = "{0}", type = "{ a: number }")]', 'Opaque'),
     ('serde_rename', '#[serde(rename = "wire")]', 'i32'),
     ('serde_skip', '#[serde(skip)]', 'Opaque'),
     ('serde_flatten', '#[serde(flatten)]', 'Inner'),
@@ -209,6 +213,11 @@ def items():
         ('container.enum.empty', '#[derive(TS)] pub enum E {}'),
         ('container.struct.serde_unknown', '#[derive(TS)] #[serde(deny_unknown_fields, rename = "Wire", bound = "")] pub struct S { a: i32 }'),
         ('container.enum.serde_unknown', '#[derive(TS)] #[serde(expecting = "x", tag = "t")] pub enum E { A, B { x: i32 } }'),
+        ('container.enum.all_variants_skipped', '#[derive(TS)] pub enum E { #[ts(skip)] A, #[ts(skip)] B { x: i32 } }'),
+        ('container.enum.one_variant_left', '#[derive(TS)] pub enum E { #[ts(skip)] A, B { x: i32 } }'),
+        ('container.enum.all_variants_skipped.tagged', '#[derive(TS)] #[ts(tag = "t")] pub enum E { #[ts(skip)] A, #[ts(skip)] B { x: i32 } }'),
+        ('generics.optional_fields.type_param', '#[derive(TS)] #[ts(optional_fields)] pub struct S<T> { x: T, y: Option<T>, z: i32 }'),
+        ('generics.optional_fields.nullable.type_param', '#[derive(TS)] #[ts(optional_fields = nullable)] pub struct S<T> { x: T, y: Option<T> }'),
         ('container.struct.all_skipped_named', '#[derive(TS)] pub struct S { #[ts(skip)] a: Opaque, #[ts(skip)] b: Opaque }'),
         ('container.struct.all_flattened', '#[derive(TS)] pub struct S { #[ts(flatten)] a: Inner, #[ts(flatten)] b: InnerEnum }'),
         ('container.struct.raw_idents', '#[derive(TS)] pub struct r#struct { r#type: i32, r#fn: Inner }'),
